@@ -208,7 +208,9 @@ PROPS = {
         design="§7 C17",
         text="Lean theorems for all capacities/sizes/alignments/table sizes (no bound); model tied to the source by "
              "exhaustive comparison of capacity_to_buckets on 1..2^22 (2^26 thorough) by breakpoints, boundary sets "
-             "to usize::MAX, layout grid, probe positions, through cfg-guarded wrappers, in both back-end builds.",
+             "to usize::MAX, layout grid, probe positions, through cfg-guarded wrappers, in both back-end builds; ProbeSeq regenerated "
+             "from source (T1); oracle-only long probe chains (tables of up to 16384 buckets filled with one hash); a run of the "
+             "implementation that does not terminate within the time limit is reported as a violation with the scenario.",
         note="Trusted: Lean kernel; axioms propext, Classical.choice, Quot.sound; the harness, the hook wrappers and "
              "the line protocol; u64 arithmetic of rustc for the values compared. 32-bit usize is covered by the "
              "theorems (bits ≥ 16) but has no tie (cannot be built here).",
@@ -244,7 +246,8 @@ PROPS = {
              "caveat for the portable tag match (and a witness that it occurs). Ties: generic.rs/bitmask.rs/tag.rs regenerated "
              "from source (T1, Gen = Model proofs), every primitive compared through hooks in two real builds on all 2-byte "
              "windows x lanes x backgrounds and random groups, table histories in both builds against the model, and the same "
-             "histories cross-compared between the builds on return values/len/contents.",
+             "histories (HashMap and HashTable, incl. the elements of one hash via iter_hash) cross-compared between the builds "
+             "on return values/len/contents.",
         note="Trusted: Lean kernel; axioms propext/Classical.choice/Quot.sound ONLY — the portable word tricks are proved with "
              "kernel reasoning (Hb/Proofs/GroupKernel.lean, GroupKernelSpec.lean: bit extensionality of the packed word, decide "
              "+kernel over lane bits, the borrow chain of the tag-match subtraction by omega); the earlier bv_decide proofs remain "
